@@ -183,7 +183,7 @@ def _names_shard(cases):
 def run(run):
     quick = run.tier == "quick"
     depth = {"T1": 4, "T2": 5, "T3": 5, "T4": 4, "T5": 3, "T6": 3, "T7": 4, "T8": 3, "TU": 2} if quick else \
-            {"T1": 6, "T2": 6, "T3": 6, "T4": 5, "T5": 5, "T6": 5, "T7": 5, "T8": 4, "TU": 3}
+            {"T1": 5, "T2": 6, "T3": 6, "T4": 5, "T5": 4, "T6": 4, "T7": 5, "T8": 4, "TU": 3}
     frag = {"T1": ["div", "td"], "T2": ["table", "tr", "tbody"], "T3": ["select"], "T5": ["div"], "T6": ["p"], "T7": ["title"]}
     only = os.environ.get("VERIF_THEMES")
     classes = {}
